@@ -35,10 +35,11 @@ var embPaths = []embPath{
 	{"/embed/ID", "embed-id"}, {"/embed/ID/", "embed-id-slash"}, {"/v/ID&x=1", "v-id-amp"}, {"/v/ID?x=1&y=2", "v-id-query"}, {"/video/ID", "video-id"}, {"/ID", "bare-id"},
 	{"/embed/", "container-only"}, {"/video/", "container-only"}, {"/", "root"}, {"/x?u=http://youtube.com/embed/ID", "name-in-query"}, {"/youtube.com/embed/ID", "name-in-path"}, {"/player.vimeo.com/video/ID", "name-in-path"},
 	{"/user/status/ID", "status-id"}, {"/embed/ID?start=30&autoplay=1#t", "embed-id-params"},
+	{"/video/ID#t=1m2s", "video-id-fragment"}, {"/embed/ID#/foo/bar", "embed-id-fragment-path"}, {"/user/status/ID#m", "status-id-fragment"},
 }
 
-var embSchemes = []string{"https://", "http://", "//", "relative-on-list", "relative-off-list", "no-scheme"}
-var embCarriers = []string{"iframe", "object-data", "object-param", "tw-iframe", "tw-bq", "tw-bq-nested", "iframe-lazy", "picture-iframe"}
+var embSchemes = []string{"https://", "http://", "//", "relative-on-list", "relative-off-list", "no-scheme", "javascript://", "data://"}
+var embCarriers = []string{"iframe", "object-data", "object-param", "tw-iframe", "tw-bq", "tw-bq-nested", "iframe-lazy", "picture-iframe", "iframe-srcdoc", "tw-bq-mxss"}
 
 type embCase struct {
 	H       embHost
@@ -72,6 +73,8 @@ func (e embCase) service() string {
 		return "youtube"
 	case "relative-off-list", "no-scheme":
 		return "" // a relative reference: the true host is the (unlisted) page host
+	case "javascript://", "data://":
+		return "" // nothing is loaded from the host-looking part of a script / data URL
 	}
 	return e.H.Service
 }
@@ -126,6 +129,12 @@ func (e embCase) element() string {
 	case "picture-iframe":
 		// frames hidden among the children of a <picture> (which is cloned into the output)
 		return fmt.Sprintf(`<picture><span class="spinner"></span><iframe src="https://tracker.example.net/t/%s"></iframe><source srcset="/img/%s.webp 1x"><b>x</b><iframe src="%s"></iframe><img src="/img/%s.png" width="640" height="480"></picture>`, e.ID, e.ID, src, e.ID)
+	case "iframe-srcdoc":
+		// srcdoc takes precedence over src: the frame shows markup supplied by the page
+		return fmt.Sprintf(`<iframe src="%s" srcdoc="&lt;p&gt;zz&lt;/p&gt;" width="560" height="315"></iframe>`, src)
+	case "tw-bq-mxss":
+		// a tweet quote with inert text that turns into a frame when the output is serialised and parsed again
+		return fmt.Sprintf(`<blockquote class="twitter-tweet"><p>hello world <math><mtext><table><mglyph><xmp></math><iframe src="https://ads.example.net/m/%s"></iframe></xmp></mglyph></table></mtext></math></p>&mdash; someone <a href="%s">date</a></blockquote>`, e.ID, src)
 	case "tw-bq-nested":
 		// a tweet quote that carries foreign frames inside
 		return fmt.Sprintf(`<blockquote class="twitter-tweet"><p>hello world <iframe src="https://ads.example.net/frame/%s"></iframe></p><div><object data="https://ads.example.net/o.swf"><iframe src="/local/frame.html"></iframe></object></div>&mdash; someone <a href="%s">date</a></blockquote>`, e.ID, src)
@@ -155,7 +164,7 @@ func genEmbedDoc(r *RNG) string {
 func init() {
 	register(&Prop{
 		ID:   "C19",
-		Rule: "full grid every run: 28 hosts (allow-listed roots, their subdomains, suffix look-alikes youtube.com.evil.example, prefix look-alikes evilyoutube.com / xplayer.vimeo.com, vimeo.com itself, userinfo tricks youtube.com@evil.example, upper case, port, trailing dot) x 14 path/query shapes (/embed/ID, /embed/ID/, /v/ID&x=1, /v/ID?x=1, /video/ID, /ID, container only, root, service name only in path or query, /user/status/ID, parameters+fragment) x 6 source forms (https, http, scheme-relative, relative with the page on / off the allow list, host name without scheme = relative path) x 6 carriers (iframe, object[data], object>param[name=movie], rendered twitter iframe with data-tweet-id, twitter blockquote with the tweet link as last anchor, the same with foreign iframes/objects nested inside, an iframe whose src is foreign while the allow-listed URL sits in data-src, iframes among the children of a <picture>) = 18816 cases, each between two long paragraphs (quick) and additionally inside random articles (thorough). Oracle: a placeholder may exist only if the TRUE host (known by construction) is allow-listed; its data-type must be that service and data-id the id encoded in the URL (last path segment, resp. data-tweet-id); no bare <iframe> may survive. Non-trivial = every grid cell; distinct = distinct cells.",
+		Rule: "full grid every run: 28 hosts (allow-listed roots, their subdomains, suffix look-alikes youtube.com.evil.example, prefix look-alikes evilyoutube.com / xplayer.vimeo.com, vimeo.com itself, userinfo tricks youtube.com@evil.example, upper case, port, trailing dot) x 17 path/query shapes (incl. fragments after the id) (/embed/ID, /embed/ID/, /v/ID&x=1, /v/ID?x=1, /video/ID, /ID, container only, root, service name only in path or query, /user/status/ID, parameters+fragment) x 8 source forms (javascript:// and data:// URLs with a host-looking part, https, http, scheme-relative, relative with the page on / off the allow list, host name without scheme = relative path) x 10 carriers (an iframe with srcdoc, a tweet quote whose inert text re-parses into a frame, iframe, object[data], object>param[name=movie], rendered twitter iframe with data-tweet-id, twitter blockquote with the tweet link as last anchor, the same with foreign iframes/objects nested inside, an iframe whose src is foreign while the allow-listed URL sits in data-src, iframes among the children of a <picture>) = 38080 cases, each between two long paragraphs (quick) and additionally inside random articles (thorough). Oracle: a placeholder may exist only if the TRUE host (known by construction) is allow-listed; its data-type must be that service and data-id the id encoded in the URL (last path segment, resp. data-tweet-id); no bare <iframe> may survive. Non-trivial = every grid cell; distinct = distinct cells.",
 		Assumptions: []string{
 			"'only if': an allow-listed source that is not turned into a placeholder (port, case, unsupported carrier) is not a violation",
 			"the id 'taken from the URL' is the last non-empty path segment (not the container words embed/video), for rendered tweets the data-tweet-id attribute",
@@ -194,7 +203,7 @@ func runC19(c *Ctx, idx int) {
 		return
 	}
 	var phs []*html.Node
-	bareIframe := false
+	bareIframe, srcdoc := false, false
 	walk(cr.Res.Node, func(n *html.Node) bool {
 		if n.Type != html.ElementNode {
 			return true
@@ -202,6 +211,9 @@ func runC19(c *Ctx, idx int) {
 		if isPlaceholder(n) {
 			phs = append(phs, n)
 			return true
+		}
+		if n.Data == "iframe" && hasAttr(n, "srcdoc") {
+			srcdoc = true
 		}
 		if n.Data == "iframe" {
 			// the only frame allowed is the recognised one: the direct child of its placeholder
@@ -212,6 +224,10 @@ func runC19(c *Ctx, idx int) {
 		return true
 	})
 	svc := e.service()
+	if srcdoc {
+		c.Violation("srcdoc-kept:"+e.Carrier, "an <iframe> in the distilled HTML keeps its srcdoc attribute: what it shows is markup of the page, not the allow-listed source", wit(map[string]any{"result_html": trunc(outer(cr.Res.Node), 2000)}))
+		return
+	}
 	if bareIframe {
 		c.Violation("bare-iframe:"+e.H.Class+":"+e.Carrier, fmt.Sprintf("an <iframe> that was not turned into a placeholder survives in the distilled HTML (source host %s, carrier %s)", e.H.Host, e.Carrier), wit(map[string]any{"result_html": trunc(outer(cr.Res.Node), 2000)}))
 		return
